@@ -256,6 +256,30 @@ for k, v in ADDED8.items():
     else:
         _late[k] = _late.get(k, "") + v
 
+ADDED9 = {
+ "C01": " Wave 8: R-CONDUNWRAP (only a positive lookahead condition is replaced by its body), R-NOSHORTCUT (no entry point answers no-match from offset == len(input)).",
+ "C02": " Wave 8: R-NOSHORTCUT, R-SCANASCII (the byte-set pre-filter holds ASCII members only), R-STARTSENT through default-start entry points.",
+ "C03": " Wave 8: R-REFZERO (a backreference adds nothing to the minimum length), R-SAMEHAY (every prefix is searched in the same text).",
+ "C04": " Wave 8: R-REFZERO.",
+ "C05": " Wave 8: R-CONDUNWRAP.",
+ "C08": " Wave 8: R-UNITCMP through index-mapping callbacks, R-UNITS also for high bounds.",
+ "C09": " Wave 8: R-STARTSENT, R-UNITS, R-NAMESTART.",
+ "C11": " Wave 8: R-RELEASEOWN (a runner is released by the function that took it), R-NOUNSAFE, R-BUFESCAPE (the pooled text buffer is not kept in objects built during a call).",
+ "C12": " Wave 8: R-RUNMATCHOWN (the working Match of a runner is its own), R-RELEASEOWN, R-UNITS.",
+ "C13": " Wave 8: R-RELEASEOWN.",
+ "C14": " Wave 8: R-IGNORETO (the no-timeout flag is tested where the deadline is read), R-PADPERIOD (the deadline is padded by the clock period).",
+ "C15": " Wave 8: R-STARTSENT.",
+ "C16": " Wave 8: R-CATEQ (a category is redundant only next to itself).",
+ "C17": " Wave 8: R-NAMESTART (the replacement parser uses the flavour-aware name-start predicate), R-TAKEALL (UnmarshalText takes over every field).",
+ "C19": " Wave 8: R-ESCAPEONE (Escape writes only through escape()), R-RUNEERR (a RuneError comparison looks at the width).",
+ "C20": " Wave 8: R-FOLDWALK (case closure walks every range).",
+}
+for k, v in ADDED9.items():
+    if k in CLAIMS:
+        CLAIMS[k]["text"] += v
+    else:
+        _late[k] = _late.get(k, "") + v
+
 CLAIMS["C06"] = dict(
    technique="static analysis: method-set / signature comparison on go/types against the standard library's *regexp.Regexp, SSA unit taint (rune positions vs byte offsets) over package compat, guard dominance on go/cfg for groups without captures, delegation check of the find-all limit, sibling agreement of the parser's dialect predicates",
    text="Decides structural necessary conditions of the adapter returning what Go's regexp returns: every Match*/Find* method of *regexp.Regexp exists on the adapter with an identical signature and is covered by the compile-time witnesses (R-SURFACE); no value computed from Capture.RuneIndex / RuneLength reaches an []int the adapter fills or a bound of a byte slice except through an offset table (R-BYTEUNIT), byte offsets are never compared with rune indexes (R-UNITCMP) and the lazily built offset table is created at the first rune that is not one byte wide (R-LAZYTABLE); a group without captures is reported as -1 pairs / nil / empty and never sliced (R-UNSETPAIR); n == 0 gives nil in every find-all method (R-NZERO); the first empty match is kept and the empty-match-next-to-previous rule is direction-aware (R-PREVINIT, R-DIRFOLD); the RE2 dialect switches of \\w \\d \\s, their forms inside a class and \\b / \\B are taken under the same option predicates (R-DIALECTSIB). It does NOT decide the equality itself: what is matched (leftmost-first vs backtracking semantics, class contents, anchors) is outside this technique.",
